@@ -5,9 +5,11 @@ Every panic site of the implementation that can be reached from the public
 write API is an explicit `Res.panic` branch of the model (`next_log_index`
 overflow, `last_segment` on a record-less chunk). The theorems below show
 those branches are unreachable for *every* argument value as long as no log
-index equals u64::MAX (`smallId`): that single excluded class is the known
-finding `C16/index-u64-max` (witness: `c16_witness_u64_max`).
-`_partial` = the statement of the property minus exactly that class.
+index equals u64::MAX (`smallId`). That single excluded class WAS the known
+finding `C16/index-u64-max`; since the fix D12 `append` and `purge` refuse such
+ids with `InvalidInput` (`c16_u64_max_is_refused`), and the property holds for
+every well-formed argument: `c16_call_no_panic`, `c16_history_no_panic` in
+Props/C16All2.lean. The `_partial` theorems (hypothesis `small`) are kept.
 -/
 import RaftLogModel.Proofs.NoPanic
 import RaftLogModel.Model.Sys
@@ -65,9 +67,55 @@ theorem c16_truncate_zero_is_error (s : Store) (fsHas : Nat → Bool) (p : LogId
   have h : p.index + 1 < U64 := hsm
   simp [Store.call, hp, nextIndexChecked, h]
 
-/-- The excluded class is real: a purge at index u64::MAX panics in the model
-(and in the implementation: corpus/C16/purge-u64-max.script). -/
-theorem c16_witness_u64_max :
+/-- **D12: the formerly excluded class is refused.** (Before the fix a purge or an
+append at index u64::MAX panicked in `next_log_index`: finding
+`C16/index-u64-max`, corpus/C16/purge-u64-max.script.) For EVERY store, every
+term, every payload and every rest of the batch: `purge (term, u64::MAX)` and
+`append [((term, u64::MAX), p), …]` return `InvalidInput`, return the store
+unchanged and emit no effect. (`append` looks at the open chunk's last segment
+first — `2 ≤ s.openOffsets.length`, part of `PanicFree`, true for every open
+store.) -/
+theorem c16_u64_max_is_refused (s : Store) (fsHas : Nat → Bool) (term : Nat) :
+    s.call fsHas (.purge ⟨term, 2 ^ 64 - 1⟩) = (.err .invalidInput, s, []) ∧
+    (2 ≤ s.openOffsets.length → ∀ p rest,
+      s.call fsHas (.append ((⟨term, 2 ^ 64 - 1⟩, p) :: rest)) = (.err .invalidInput, s, [])) := by
+  have hidx : (⟨term, 2 ^ 64 - 1⟩ : LogId).index + 1 = U64 := by
+    show 2 ^ 64 - 1 + 1 = 2 ^ 64
+    omega
+  refine ⟨call_purge_refused_D12 s fsHas _ hidx, ?_⟩
+  intro h2 p rest
+  obtain ⟨seg, hseg⟩ := lastSegment_some h2
+  simp only [Store.call, hseg]
+  exact appendBatch_cons_refused_D12 fsHas _ p rest s seg [] hidx
+
+/-- The same for any id whose index is u64::MAX, stated with `index + 1 = U64`. -/
+theorem c16_u64_max_is_refused' (s : Store) (fsHas : Nat → Bool) (id : LogId)
+    (hidx : id.index + 1 = U64) :
+    s.call fsHas (.purge id) = (.err .invalidInput, s, []) ∧
+    (2 ≤ s.openOffsets.length → ∀ p rest,
+      s.call fsHas (.append ((id, p) :: rest)) = (.err .invalidInput, s, [])) := by
+  refine ⟨call_purge_refused_D12 s fsHas _ hidx, ?_⟩
+  intro h2 p rest
+  obtain ⟨seg, hseg⟩ := lastSegment_some h2
+  simp only [Store.call, hseg]
+  exact appendBatch_cons_refused_D12 fsHas _ p rest s seg [] hidx
+
+/-- Checked by evaluation on the concrete state of the old witness (the empty
+store) and on a freshly opened store (which has an open chunk with a head
+record, as `append` needs). -/
+theorem c16_u64_max_is_refused_witness :
+    (emptyStore {}).call (fun _ => false) (.purge ⟨1, 2 ^ 64 - 1⟩)
+      = (.err .invalidInput, emptyStore {}, []) ∧
+    (Sys.fresh {}).store.map (fun s => s.call (fun _ => false) (.purge ⟨1, 2 ^ 64 - 1⟩))
+      = (Sys.fresh {}).store.map (fun s => (.err .invalidInput, s, [])) ∧
+    (Sys.fresh {}).store.map (fun s => s.call (fun _ => false) (.append [(⟨1, 2 ^ 64 - 1⟩, [1])]))
+      = (Sys.fresh {}).store.map (fun s => (.err .invalidInput, s, [])) := by
+  refine ⟨by decide, by decide, by decide⟩
+
+/-- The internal overflow branch of `append_and_apply` still exists in the model
+(`Types::next_log_index` is still a checked add), but the public API no longer
+reaches it: `purge`/`append` refuse the id first (`c16_u64_max_is_refused`). -/
+theorem c16_internal_overflow_branch :
     ((emptyStore {}).appendAndApply (fun _ => false) (.purgeUpto ⟨1, 2 ^ 64 - 1⟩)).1
       = .panic "next_log_index overflow (apply)" := by
   decide
